@@ -175,7 +175,7 @@ pub fn run(cfg: &Cfg, out: &mut Out) {
     out.note("exhaustive: every </=/> pattern of (recorded, state-file, edit) stamps over a 3-point grid at 1 ms / 1 s / 2 s × 6 edit kinds × 2 exec bits; all sub-ms offset combinations; then random".into());
     // Part 3 — random rounds
     let mut r = cfg.rng(26);
-    for _ in 0..cfg.n(250, 8000) {
+    for _ in 0..cfg.n(250, 4000) {
         let gran = *r.pick(&[1_000_000u64, 10_000_000, 1_000_000_000, 2_000_000_000]);
         let pts = r.range(2, 4) as u64;
         let sub = |r: &mut Rng| if r.chance(1, 3) { *r.pick(&[1u64, 300_000, 999_999]) } else { 0 };
